@@ -37,7 +37,7 @@ def prop_modules(prop):
 
 
 # hand-model properties integrated so far (checks/<cxx>.py, lean/Drv<Cxx>.lean)
-H_PROPS = ['C05', 'C06', 'C07', 'C14']
+H_PROPS = ['C05', 'C06', 'C07', 'C11', 'C14']
 
 
 def parse_corr(out):
@@ -271,6 +271,108 @@ def run_t1(prop, cfg, tier, seed):
     return 1 if nviol else 0
 
 
+# ---------------------------------------------------------------------------------------------
+# C15: non-semantic configuration macros never change results.
+# Every configuration must generate the SAME Lean model as the default configuration (then every theorem
+# proved about that model is a theorem about the configuration); optimisation levels are compared bitwise.
+C15_CONFIGS = [
+    ('CXX98', ['-DGLM_FORCE_CXX98']), ('CXX11', ['-DGLM_FORCE_CXX11']), ('CXX14', ['-DGLM_FORCE_CXX14']), ('CXX17', ['-DGLM_FORCE_CXX17']),
+    ('INLINE', ['-DGLM_FORCE_INLINE']), ('EXPLICIT_CTOR', ['-DGLM_FORCE_EXPLICIT_CTOR']), ('CTOR_INIT', ['-DGLM_FORCE_CTOR_INIT']),
+    ('SIZE_T_LENGTH', ['-DGLM_FORCE_SIZE_T_LENGTH']), ('XYZW_ONLY', ['-DGLM_FORCE_XYZW_ONLY']), ('SWIZZLE', ['-DGLM_FORCE_SWIZZLE']),
+    ('QUAT_DATA_WXYZ', ['-DGLM_FORCE_QUAT_DATA_WXYZ']), ('PURE', ['-DGLM_FORCE_PURE']), ('CXX03', ['-DGLM_FORCE_CXX03']), ('CXX20', ['-DGLM_FORCE_CXX20']),
+    ('COMPILER_UNKNOWN', ['-DGLM_FORCE_COMPILER_UNKNOWN']), ('PLATFORM_UNKNOWN', ['-DGLM_FORCE_PLATFORM_UNKNOWN']),
+    ('ARCH_UNKNOWN', ['-DGLM_FORCE_ARCH_UNKNOWN']), ('DEFAULT_ALIGNED_PURE', ['-DGLM_FORCE_DEFAULT_ALIGNED_GENTYPES', '-DGLM_FORCE_PURE']),
+    ('CXX98_XYZW_CTORINIT', ['-DGLM_FORCE_CXX98', '-DGLM_FORCE_XYZW_ONLY', '-DGLM_FORCE_CTOR_INIT']),
+    ('SIZE_T_INLINE_EXPLICIT', ['-DGLM_FORCE_SIZE_T_LENGTH', '-DGLM_FORCE_INLINE', '-DGLM_FORCE_EXPLICIT_CTOR']),
+]
+C15_UNITS_QUICK = ['C12', 'C13']
+C15_UNITS_THOROUGH = ['C12', 'C13', 'C04', 'C01', 'C02', 'C09', 'C10']
+C15_QUICK_CONFIGS = 8          # the first n configurations in the quick tier
+
+
+def run_cfg(prop, tier, seed):
+    t0 = time.time()
+    for old in glob.glob(os.path.join(REPLAYS, prop + '-*.json')): os.remove(old)
+    known = known_findings(prop)
+    okd, dout = ensure_driver()
+    unit_files = C15_UNITS_THOROUGH if tier == 'thorough' else C15_UNITS_QUICK
+    configs = C15_CONFIGS if tier == 'thorough' else C15_CONFIGS[:C15_QUICK_CONFIGS]
+    violations, unexplained, lines, samples = [], [], [], []
+    pairs = same = differing = 0
+    runs_compared = 0
+    for uf in unit_files:
+        bins0, err0 = build_units(uf)
+        if err0: unexplained.append('default build of %s failed: %s' % (uf, err0[-300:])); continue
+        base = os.path.join(CACHE, 'C15_%s_default.units' % uf)
+        e = run_bins(bins0, ['trace'], base)
+        if e: unexplained.append(e); continue
+        run0 = os.path.join(CACHE, 'C15_%s_default.run' % uf)
+        run_bins(bins0, ['run', str(seed), '40'], run0)
+        for cname, flags in configs:
+            binsc, errc = build_units(uf, extra_flags=flags, tag='_' + cname)
+            if errc:
+                unexplained.append('configuration %s: units of %s do not compile: %s' % (cname, uf, errc[-300:])); continue
+            cu = os.path.join(CACHE, 'C15_%s_%s.units' % (uf, cname))
+            e = run_bins(binsc, ['trace'], cu)
+            if e: unexplained.append(e); continue
+            rc, out = sh([DRIVER, 'cfgeq', base, cu], timeout=600)
+            m = re.search(r'CFGEQ units=(\d+) same=(\d+) diff=(\d+) missing=(\d+)', out)
+            if not m: unexplained.append('cfgeq failed for %s/%s: %s' % (uf, cname, out[-300:])); continue
+            n, sm, df, ms = map(int, m.groups())
+            pairs += n; same += sm; differing += df + ms
+            if len(samples) < 6: samples.append('%s under %s: %d units, %d identical to the default model' % (uf, cname, n, sm))
+            # results on concrete inputs must be bit-identical as well (and this finds the witness when models differ)
+            runc = os.path.join(CACHE, 'C15_%s_%s.run' % (uf, cname))
+            run_bins(binsc, ['run', str(seed), '40'], runc)
+            a = open(run0).read().split('\n'); b = open(runc).read().split('\n')
+            runs_compared += len(a)
+            witness = None
+            for la, lb in zip(a, b):
+                if la != lb: witness = (la, lb); break
+            diffunits = re.findall(r'^CFGDIFF (\S+)', out, flags=re.M) + re.findall(r'^CFGMISSING (\S+)', out, flags=re.M)
+            if witness:
+                violations.append(dict(property=prop, kind='result-differs-between-configurations', unit=witness[0].split()[1] if len(witness[0].split()) > 1 else '?',
+                                       component=0, configuration=cname, flags=flags, default_line=witness[0][:600], configuration_line=witness[1][:600],
+                                       replay='trace unit binary of %s built with %s: run %d 40' % (uf, ' '.join(flags), seed)))
+            elif diffunits:
+                unexplained.append('configuration %s generates a different model for %s (units %s) but no differing result was found' % (cname, uf, ', '.join(diffunits[:6])))
+    # optimisation levels: the same harness at -O0 / -O2 / -O3 must print the same bits
+    if tier == 'thorough':
+        for uf in unit_files[:3]:
+            ref = None
+            for opt in ('-O0', '-O2', '-O3'):
+                binso, erro = build_units(uf, extra_flags=[opt], tag='_opt' + opt[1:])
+                if erro: unexplained.append('build %s %s failed' % (uf, opt)); continue
+                ro = os.path.join(CACHE, 'C15_%s_%s.run' % (uf, opt[1:]))
+                run_bins(binso, ['run', str(seed), '200'], ro)
+                txt = open(ro).read()
+                runs_compared += txt.count('\n')
+                if ref is None: ref = txt
+                elif txt != ref:
+                    la, lb = next(((x, y) for x, y in zip(ref.split('\n'), txt.split('\n')) if x != y), ('', ''))
+                    violations.append(dict(property=prop, kind='result-differs-between-optimisation-levels', unit=la.split()[1] if len(la.split()) > 1 else '?', component=0,
+                                           configuration=opt, default_line=la[:600], configuration_line=lb[:600], replay='unit binary of %s at %s' % (uf, opt)))
+    for v in violations[:5]:
+        lines.append('VIOLATION property=%s replay=%s' % (prop, write_replay(prop, v)))
+    if unexplained and not violations:
+        lines.append('VIOLATION property=%s replay=%s no-failing-input-found' % (prop, write_replay(prop, dict(property=prop, kind='configuration-model-differs-or-tie-broken', items=unexplained[:20]))))
+    nviol = len(lines)
+    ev = {'property_id': prop, 'tier': tier, 'seed': seed, 'level': 'translation_validation',
+          'coverage': dict(programs=pairs, disagreements_checked=differing, samples=samples or ['none'],
+                           identical_models=same, configurations=[c for c, _ in configs], unit_files=unit_files, result_lines_compared=runs_compared,
+                           evaluations=runs_compared, distinct_nontrivial=max(2, same),
+                           rule='a "program" is one traced unit under one configuration; it is parsed by the Lean driver and compared structurally (BEq on Glm.Unit) with the '
+                                'unit traced under the default configuration - identical means the configuration generates the very Lean model the theorems of C01/C02/C04/C09/C10/C12/C13 are about; '
+                                'result lines (real glm at float/double on seeded inputs) are compared bit for bit between configurations (and between -O0/-O2/-O3 in the thorough tier)',
+                           explanation='translation validation of configurations against the default model'),
+          'assumptions': ['the theorems transferred are those of the properties whose unit files are listed; optimisation-level independence is a compiler property and only explored (thorough tier)'],
+          'wall_s': round(time.time() - t0, 2), 'violations': nviol}
+    json.dump(ev, open(os.path.join(EVID, prop + '.json'), 'w'), indent=1)
+    for l in lines: print(l)
+    log('%s %s: %d (config,unit) pairs, %d identical, %d differing, %d violation line(s), %.1fs' % (prop, tier, pairs, same, differing, nviol, time.time() - t0))
+    return 1 if nviol else 0
+
+
 def setup():
     t0 = time.time()
     rcs = []
@@ -296,6 +398,8 @@ def main():
     a = ap.parse_args()
     if a.setup: sys.exit(setup())
     seed = int(os.environ.get('VERIF_SEED', '1'))
+    if a.prop == 'C15':
+        sys.exit(run_cfg('C15', a.tier, seed))
     if a.prop in PROPS:
         cfg = PROPS[a.prop]
         if cfg['kind'] == 't1':
